@@ -7,20 +7,24 @@ namespace RichModel.Live
 open RichModel RichModel.Screen
 
 theorem disableRedirect_shape (st : St) : (disableRedirect st).shape = st.shape := by
-  obtain ⟨_, _, _, _, _, _, _, _, rso, rse, _, _, _⟩ := st
+  obtain ⟨_, _, _, _, _, _, _, _, rso, rse, _, _, _, _, _, _⟩ := st
   cases rso <;> cases rse <;> rfl
 
 theorem disableRedirect_renderable (st : St) : (disableRedirect st).renderable = st.renderable := by
-  obtain ⟨_, _, _, _, _, _, _, _, rso, rse, _, _, _⟩ := st
+  obtain ⟨_, _, _, _, _, _, _, _, rso, rse, _, _, _, _, _, _⟩ := st
   cases rso <;> cases rse <;> rfl
 
 theorem disableRedirect_overflow (st : St) : (disableRedirect st).overflow = st.overflow := by
-  obtain ⟨_, _, _, _, _, _, _, _, rso, rse, _, _, _⟩ := st
+  obtain ⟨_, _, _, _, _, _, _, _, rso, rse, _, _, _, _, _, _⟩ := st
+  cases rso <;> cases rse <;> rfl
+
+theorem disableRedirect_width (st : St) : (disableRedirect st).width = st.width := by
+  obtain ⟨_, _, _, _, _, _, _, _, rso, rse, _, _, _, _, _, _⟩ := st
   cases rso <;> cases rse <;> rfl
 
 theorem shown_cleanup (cfg : Cfg) (st : St) : shown cfg (cleanup st) = shown cfg st := by
-  unfold shown cleanup
-  simp only [disableRedirect_shape, disableRedirect_renderable, disableRedirect_overflow]
+  unfold shown cleanup curWidth
+  simp only [disableRedirect_shape, disableRedirect_renderable, disableRedirect_overflow, disableRedirect_width]
 
 theorem cleanup_shape (st : St) : (cleanup st).shape = st.shape := by
   unfold cleanup; exact disableRedirect_shape st
@@ -54,120 +58,60 @@ theorem stopSt_hooks (cfg : Cfg) (st : St) : (stopSt cfg st).hooks = st.hooks :=
 theorem stopSt_started (cfg : Cfg) (st : St) : (stopSt cfg st).started = false := by
   unfold stopSt; cases cfg.kind <;> rfl
 
-/-- `doStop` when nothing fails and the display is started. -/
-theorem doStop_started (cfg : Cfg) (st : St) (hst : st.started = true) (hh : st.hooks > 0) :
+theorem stopSt_idem (cfg : Cfg) (st : St) : stopSt cfg { st with started := false } = stopSt cfg st := by
+  unfold stopSt; cases cfg.kind <;> rfl
+
+theorem flushLive_clean (cfg : Cfg) (fails : Nat → Bool) (st : St) (err : Bool) (h : getBuf st err = []) :
+    flushLive cfg fails st err = { st := st } := by
+  simp [flushLive, h]
+
+theorem flushDead_clean (cfg : Cfg) (fails : Nat → Bool) (st : St) (err : Bool) (h : getBuf st err = []) :
+    flushDead cfg fails st err = { st := st } := by
+  simp [flushDead, h]
+
+theorem dropFlush_clean (cfg : Cfg) (fails : Nat → Bool) (st : St) (h1 : st.bufOut = []) (h2 : st.bufErr = []) :
+    dropFlush cfg fails st = { st := st } := by
+  have e1 : flushDead cfg fails st false = { st := st } := flushDead_clean cfg fails st false (by simpa [getBuf] using h1)
+  have e2 : flushDead cfg fails st true = { st := st } := flushDead_clean cfg fails st true (by simpa [getBuf] using h2)
+  simp [dropFlush, e1, e2]
+
+theorem finOut_nil (cfg : Cfg) (ha : cfg.ansi = true) : finOut cfg [] = [.showCursor] := by
+  unfold finOut showOp; cases cfg.kind <;> simp [ha]
+
+/-- `doStop` when nothing fails, the display is started and no text is pending in the proxies. -/
+theorem doStop_started (cfg : Cfg) (hc : cfg.plain = true) (st : St) (hst : st.started = true) (hh : st.hooks > 0)
+    (hbo : st.bufOut = []) (hbe : st.bufErr = []) :
     ∃ st1 : St, st1.shape = st.shape ∧ st1.hooks = st.hooks ∧ st1.started = false ∧
       HookedRes cfg st1 [] (doRefresh cfg noFault st1) ∧
       stopFrame cfg st = shown cfg (doRefresh cfg noFault st1).st ∧
       doStop cfg noFault st =
         { st := resetSt cfg (cleanup (doRefresh cfg noFault st1).st),
           out := (doRefresh cfg noFault st1).out ++ [.lf, .showCursor] ++
-            (if cfg.transient then restoreCursor (cleanup (doRefresh cfg noFault st1).st).shape else []) } := by
+            (if cfg.transient then restoreCursor cfg.blankFix (cleanup (doRefresh cfg noFault st1).st).shape else []) } := by
   have hh1 : (stopSt cfg st).hooks > 0 := by rw [stopSt_hooks]; exact hh
-  have hres := (doRefresh_noFault cfg (stopSt cfg st)).1 hh1
+  have hres := (doRefresh_noFault cfg hc (stopSt cfg st)).1 hh1
   refine ⟨stopSt cfg st, stopSt_shape cfg st, stopSt_hooks cfg st, stopSt_started cfg st, hres, rfl, ?_⟩
-  simp only [doStop, hst, Bool.not_true, Bool.false_eq_true, if_false, stopTail]
-  rw [hres.err]
-
-/-- The final stop: the screen shows the printed lines, then the last frame (nothing if transient),
-then only blank rows; the cursor never went above the first row under the printed lines and is visible. -/
-theorem good_stop {cfg : Cfg} {st : St} {v : View} {s : Screen} (g : Good cfg st v s)
-    (hfit : st.started = true → cfg.transient = true → (stopFrame cfg st).length + 1 ≤ cfg.height) :
-    ∃ s', Run cfg.height v.printed.length s (doStop cfg noFault st).out s' ∧
-      (∃ k, s'.rows = (viewStop cfg st v).printed ++ (viewStop cfg st v).frame ++ List.replicate k []) ∧
-      (st.started = true → s'.visible = true) := by
-  by_cases hst : st.started = true
-  · have hh : st.hooks > 0 := by have := g.hooks; rw [hst] at this; simp at this; omega
-    obtain ⟨st1, hs1, hh1, _, hres, eframe, estop⟩ := doStop_started cfg st hst hh
-    rw [estop]
-    rw [eframe] at hfit
-    simp only [cleanup_shape]
-    generalize hr : doRefresh cfg noFault st1 = r at hres hfit ⊢
-    -- the last refresh
-    obtain ⟨s1, k1, hrun1, hs1', hk1, hv1⟩ := hooked_screen (P := v.printed) (F := v.frame) g.shown (by rw [hs1]; exact g.shape) hres
-    simp only [List.append_nil] at hs1'
-    -- the line feed and the cursor
-    have hrow1 := shown_row_ge hs1'
-    obtain ⟨s2, hs2⟩ : ∃ s2, s2 = Screen.step cfg.height s1 .lf := ⟨_, rfl⟩
-    have hb2 : AtBlank s2 (v.printed ++ region (shown cfg r.st)) (max k1 1) := by
-      rw [hs2]; exact shown_lf (H := cfg.height) hs1'
-    obtain ⟨s3, hs3⟩ : ∃ s3, s3 = Screen.step cfg.height s2 .showCursor := ⟨_, rfl⟩
-    have hrows3 : s3.rows = s2.rows := by rw [hs3]; rfl
-    have hrow3 : s3.row = s2.row := by rw [hs3]; rfl
-    have hcol3 : s3.col = s2.col := by rw [hs3]; rfl
-    have hvis3 : s3.visible = true := by rw [hs3]; rfl
-    have hrun2 : Run cfg.height v.printed.length s (r.out ++ [.lf, .showCursor]) s3 := by
-      rw [hs3, hs2]
-      refine Run.append hrun1 (Run.cons ?_ (Run.one ?_))
-      · simp [Screen.step]; omega
-      · simp [Screen.step]; omega
-    have hvs : viewStop cfg st v = { v with frame := if cfg.transient then [] else shown cfg r.st } := by
-      simp only [viewStop, hst, if_true, eframe, hr]
-    rw [hvs]
-    by_cases htr : cfg.transient = true
-    · simp only [htr, if_true]
-      have hF := hfit hst htr
-      -- erase the frame again
-      cases hshape : r.st.shape with
-      | none =>
-        have hF0 : shown cfg r.st = [] := by have := hres.shape; rw [hshape] at this; exact this
-        refine ⟨s3, by simpa [restoreCursor] using hrun2, ⟨max k1 1 + 1, ?_⟩, fun _ => hvis3⟩
-        rw [hrows3, hb2.rows, hF0]
-        simp [region, List.replicate_succ]
-      | some wh =>
-        obtain ⟨w, h⟩ := wh
-        have hh' : h = (shown cfg r.st).length := by have := hres.shape; rw [hshape] at this; exact this
-        subst hh'
-        obtain ⟨s4, hs4⟩ : ∃ s4, s4 = Screen.step cfg.height s3 .cr := ⟨_, rfl⟩
-        have hrows4 : s4.rows = s2.rows := by rw [hs4]; exact hrows3
-        have hrow4 : s4.row = s2.row := by rw [hs4]; exact hrow3
-        have hcol4 : s4.col = 0 := by rw [hs4]; rfl
-        have hvis4 : s4.visible = true := by rw [hs4]; exact hvis3
-        have hrun4 : Run cfg.height v.printed.length s (r.out ++ [.lf, .showCursor] ++ [.cr]) s4 := by
-          refine Run.append hrun2 ?_
-          rw [hs4]; refine Run.one ?_
-          show v.printed.length ≤ s3.row
-          rw [hrow3, hb2.row]; simp
-        cases hF1 : shown cfg r.st with
-        | nil =>
-          refine ⟨s4, ?_, ⟨max k1 1 + 1, ?_⟩, fun _ => hvis4⟩
-          · simpa [restoreCursor, hF1, eraseUp] using hrun4
-          · rw [hrows4, hb2.rows, hF1]
-            simp [region, List.replicate_succ]
-        | cons l rest =>
-          rw [hF1] at hb2 hF hk1
-          simp only [region] at hb2 hk1
-          obtain ⟨s', hrun5, hb5, hv5⟩ := erase_up (H := cfg.height) v.printed (l :: rest).length (l :: rest)
-            s4 (max k1 1) rfl (by rw [hrows4, hb2.rows]) (by rw [hrow4, hb2.row, List.length_append])
-            hcol4 (by omega) (by simp at hF hk1 ⊢; omega)
-          refine ⟨s', ?_, ⟨(l :: rest).length + max k1 1, by rw [hb5.rows]; simp⟩, fun _ => by rw [hv5]; exact hvis4⟩
-          have : r.out ++ [TermOp.lf, TermOp.showCursor] ++ restoreCursor (some (w, (l :: rest).length)) =
-              (r.out ++ [.lf, .showCursor] ++ [.cr]) ++ eraseOps (l :: rest).length := by
-            simp [restoreCursor, eraseUp_eq]
-          rw [this]
-          exact Run.append hrun4 hrun5
-    · have htr' : cfg.transient = false := by simpa using htr
-      simp only [htr', Bool.false_eq_true, if_false, List.append_nil]
-      refine ⟨s3, hrun2, ?_, fun _ => hvis3⟩
-      cases hF1 : shown cfg r.st with
-      | nil =>
-        refine ⟨max k1 1 + 1, ?_⟩
-        rw [hrows3, hb2.rows, hF1]
-        simp [region, List.replicate_succ]
-      | cons l rest =>
-        refine ⟨max k1 1, ?_⟩
-        rw [hrows3, hb2.rows, hF1]
-        simp [region]
-  · have hst' : st.started = false := by simpa using hst
-    have e : doStop cfg noFault st = { st := st } := by simp [doStop, hst']
-    rw [e]
-    obtain ⟨k, hs, _⟩ := g.shown
-    refine ⟨s, Run.nil _ _ _, ?_, fun h => by rw [hst'] at h; cases h⟩
-    simp only [viewStop, hst', Bool.false_eq_true, if_false]
-    exact shown_rows hs
+  have hb := doRefresh_bufs cfg noFault (stopSt cfg st)
+  have hso : (stopSt cfg st).bufOut = [] := by unfold stopSt; cases cfg.kind <;> exact hbo
+  have hse : (stopSt cfg st).bufErr = [] := by unfold stopSt; cases cfg.kind <;> exact hbe
+  -- both variants of `stop` reduce to the tail after the last refresh
+  have key : doStop cfg noFault st = stopTail cfg noFault (doRefresh cfg noFault (stopSt cfg st)) := by
+    by_cases hf : cfg.flushFix = true
+    · have e1 : flushLive cfg noFault { st with started := false } false = { st := { st with started := false } } :=
+        flushLive_clean _ _ _ _ (by simpa [getBuf] using hbo)
+      have e2 : flushLive cfg noFault { st with started := false } true = { st := { st with started := false } } :=
+        flushLive_clean _ _ _ _ (by simpa [getBuf] using hbe)
+      simp only [doStop, hst, hf, Bool.not_true, Bool.false_eq_true, if_false, if_true, e1, e2, stopSt_idem]
+      simp
+    · have hf' : cfg.flushFix = false := by simpa using hf
+      simp [doStop, hst, hf']
+  rw [key]
+  simp only [stopTail, hres.err]
+  rw [dropFlush_clean cfg noFault _ (by rw [hb.1, hso]) (by rw [hb.2, hse])]
+  simp [finOut_nil cfg (plain_ansi hc), plain_terminal hc, plain_ansi hc]
 
 theorem disableRedirect_started (st : St) : (disableRedirect st).started = st.started := by
-  obtain ⟨_, _, _, _, _, _, _, _, rso, rse, _, _, _⟩ := st
+  obtain ⟨_, _, _, _, _, _, _, _, rso, rse, _, _, _, _, _, _⟩ := st
   cases rso <;> cases rse <;> rfl
 
 theorem atBlank_of_eq {s s' : Screen} {P : List Line} {m : Nat} (h : AtBlank s P m)
@@ -176,16 +120,16 @@ theorem atBlank_of_eq {s s' : Screen} {P : List Line} {m : Nat} (h : AtBlank s P
 
 /-- Where an effective `stop` lands: on a blank zone right below the finished output (printed lines plus
 what the display leaves, `leftBy`), all of it within the screen, cursor visible. -/
-theorem stop_landing {cfg : Cfg} {st : St} {v : View} {s : Screen} (hH : 1 ≤ cfg.height) (g : Good cfg st v s)
-    (hst : st.started = true)
-    (hfit : cfg.transient = true → (stopFrame cfg st).length + 1 ≤ cfg.height) :
+theorem stop_landing {cfg : Cfg} {st : St} {v : View} {s : Screen} (hc : cfg.plain = true) (hH : 1 ≤ cfg.height) (g : Good cfg st v s)
+    (hst : st.started = true) (hbo : st.bufOut = []) (hbe : st.bufErr = [])
+    (hfit : cfg.transient = true → restoreCount cfg.blankFix (stopFrame cfg st).length + 1 ≤ cfg.height) :
     ∃ s' m, Run cfg.height v.printed.length s (doStop cfg noFault st).out s' ∧
-      AtBlank s' (v.printed ++ leftBy cfg (stopFrame cfg st)) m ∧ m ≤ cfg.height ∧ s'.visible = true ∧
+      AtBlank s' ((v.printed ++ leftBy cfg (stopFrame cfg st)).map (cells cfg.cw)) m ∧ m ≤ cfg.height ∧ s'.visible = true ∧
       (doStop cfg noFault st).st.started = false ∧ (doStop cfg noFault st).st.hooks = 0 ∧
       (cfg.resetShape = true → (doStop cfg noFault st).st.shape = none) := by
   have hh : st.hooks > 0 := by have := g.hooks; rw [hst] at this; simp at this; omega
   have hh1' : st.hooks = 1 := by have := g.hooks; rw [hst] at this; simpa using this
-  obtain ⟨st1, hs1, hh1, hst1, hres, eframe, estop⟩ := doStop_started cfg st hst hh
+  obtain ⟨st1, hs1, hh1, hst1, hres, eframe, estop⟩ := doStop_started cfg hc st hst hh hbo hbe
   rw [estop]
   rw [eframe] at hfit ⊢
   simp only [cleanup_shape]
@@ -208,12 +152,23 @@ theorem stop_landing {cfg : Cfg} {st : St} {v : View} {s : Screen} (hH : 1 ≤ c
   generalize hr : doRefresh cfg noFault st1 = r at hres hfit hfin hfinS ⊢
   obtain ⟨s1, k1, hrun1, hs1', hk1, hv1⟩ := hooked_screen (P := v.printed) (F := v.frame) g.shown (by rw [hs1]; exact g.shape) hres
   simp only [List.append_nil] at hs1'
-  have hrow1 := shown_row_ge hs1'
+  -- everything below is about the rows of cells on the screen
+  have hcnil : cells cfg.cw [] = [] := rfl
+  have hregion : ∀ F : Frame, (region F).map (cells cfg.cw) = region (F.map (cells cfg.cw)) := by
+    intro F; cases F <;> simp [region, hcnil]
+  generalize hPc : v.printed.map (cells cfg.cw) = Pc at hs1'
+  have hPlen : Pc.length = v.printed.length := by rw [← hPc, List.length_map]
+  generalize hFc : (shown cfg r.st).map (cells cfg.cw) = Fc at hs1'
+  have hFlen : Fc.length = (shown cfg r.st).length := by rw [← hFc, List.length_map]
+  have hrlen : (region Fc).length = (region (shown cfg r.st)).length := by rw [← hFc, region_map_length]
+  rw [← hrlen] at hk1
+  rw [← hFlen] at hfit
+  have hrow1 : v.printed.length ≤ s1.row := by have := shown_row_ge hs1'; omega
   obtain ⟨s2, hs2⟩ : ∃ s2, s2 = Screen.step cfg.height s1 .lf := ⟨_, rfl⟩
-  have hb2 : AtBlank s2 (v.printed ++ region (shown cfg r.st)) (max k1 1) := by
+  have hb2 : AtBlank s2 (Pc ++ region Fc) (max k1 1) := by
     rw [hs2]; exact shown_lf (H := cfg.height) hs1'
   obtain ⟨s3, hs3⟩ : ∃ s3, s3 = Screen.step cfg.height s2 .showCursor := ⟨_, rfl⟩
-  have hb3 : AtBlank s3 (v.printed ++ region (shown cfg r.st)) (max k1 1) :=
+  have hb3 : AtBlank s3 (Pc ++ region Fc) (max k1 1) :=
     atBlank_of_eq hb2 (by rw [hs3]; rfl) (by rw [hs3]; rfl) (by rw [hs3]; exact hb2.col)
   have hvis3 : s3.visible = true := by rw [hs3]; rfl
   have hrun2 : Run cfg.height v.printed.length s (r.out ++ [.lf, .showCursor]) s3 := by
@@ -222,60 +177,94 @@ theorem stop_landing {cfg : Cfg} {st : St} {v : View} {s : Screen} (hH : 1 ≤ c
     · simp [Screen.step]; omega
     · simp [Screen.step]; omega
   have hm3 : max k1 1 ≤ cfg.height := by
-    have := region_length_pos (shown cfg r.st); omega
+    have := region_length_pos Fc; omega
+  -- the claim in terms of cell rows
+  suffices hsuff : ∃ s' m, Run cfg.height v.printed.length s
+        (r.out ++ [TermOp.lf, TermOp.showCursor] ++
+          if cfg.transient = true then restoreCursor cfg.blankFix r.st.shape else []) s' ∧
+      AtBlank s' (Pc ++ (if cfg.transient then (if Fc.isEmpty && !cfg.blankFix then [[]] else []) else region Fc)) m ∧
+      m ≤ cfg.height ∧ s'.visible = true by
+    obtain ⟨s', m, h1, h2, h3, h4⟩ := hsuff
+    refine ⟨s', m, h1, ?_, h3, h4, hfinS, hfin.1, hfin.2⟩
+    have : (v.printed ++ leftBy cfg (shown cfg r.st)).map (cells cfg.cw) =
+        Pc ++ (if cfg.transient then (if Fc.isEmpty && !cfg.blankFix then [[]] else []) else region Fc) := by
+      rw [List.map_append, hPc]
+      congr 1
+      unfold leftBy
+      have he : Fc.isEmpty = (shown cfg r.st).isEmpty := by
+        rw [← hFc]; cases shown cfg r.st <;> rfl
+      rw [he]
+      split
+      · split <;> simp [hcnil]
+      · rw [hregion, hFc]
+    rw [this]; exact h2
   by_cases htr : cfg.transient = true
   · have hF := hfit htr
-    simp only [htr, if_true, leftBy]
+    simp only [htr, if_true]
     cases hshape : r.st.shape with
-    | none =>
-      have hF0 : shown cfg r.st = [] := by have := hres.shape; rw [hshape] at this; exact this
-      refine ⟨s3, max k1 1, by simpa [restoreCursor] using hrun2, ?_, hm3, hvis3, hfinS, hfin.1, hfin.2⟩
-      rw [hF0] at hb3 ⊢; simpa [region] using hb3
+    | none => have := hres.isSome; rw [hshape] at this; cases this
     | some wh =>
       obtain ⟨w, h⟩ := wh
-      have hh' : h = (shown cfg r.st).length := by have := hres.shape; rw [hshape] at this; exact this
+      have hh' : h = Fc.length := by have := hres.shape; rw [hshape] at this; rw [hFlen]; exact this
       subst hh'
       obtain ⟨s4, hs4⟩ : ∃ s4, s4 = Screen.step cfg.height s3 .cr := ⟨_, rfl⟩
-      have hb4 : AtBlank s4 (v.printed ++ region (shown cfg r.st)) (max k1 1) :=
+      have hb4 : AtBlank s4 (Pc ++ region Fc) (max k1 1) :=
         atBlank_of_eq hb3 (by rw [hs4]; rfl) (by rw [hs4]; rfl) (by rw [hs4]; rfl)
       have hvis4 : s4.visible = true := by rw [hs4]; exact hvis3
       have hrun4 : Run cfg.height v.printed.length s (r.out ++ [.lf, .showCursor] ++ [.cr]) s4 := by
         refine Run.append hrun2 ?_
         rw [hs4]; refine Run.one ?_
         show v.printed.length ≤ s3.row
-        rw [hb3.row]; simp
-      cases hF1 : shown cfg r.st with
-      | nil =>
-        refine ⟨s4, max k1 1, ?_, ?_, hm3, hvis4, hfinS, hfin.1, hfin.2⟩
-        · simpa [restoreCursor, hF1, eraseUp] using hrun4
-        · rw [hF1] at hb4; simpa [region] using hb4
-      | cons l rest =>
-        rw [hF1] at hb4 hF hk1
-        simp only [region] at hb4 hk1
-        obtain ⟨s', hrun5, hb5, hv5⟩ := erase_up (H := cfg.height) v.printed (l :: rest).length (l :: rest)
+        rw [hb3.row]; simp; omega
+      -- going up over the rows `G` of the region that `restore_cursor` counts
+      have up : ∀ G : List Line, region Fc = G → G.length = restoreCount cfg.blankFix Fc.length →
+          ∃ s' m, Run cfg.height v.printed.length s
+              (r.out ++ [TermOp.lf, TermOp.showCursor] ++ restoreCursor cfg.blankFix (some (w, Fc.length))) s' ∧
+            AtBlank s' Pc m ∧ m ≤ cfg.height ∧ s'.visible = true := by
+        intro G hG hlen
+        rw [hG] at hb4
+        have hF' : G.length + 1 ≤ cfg.height := by rw [hlen]; exact hF
+        have hk1' : G.length + k1 ≤ max cfg.height G.length := by rw [← hG]; exact hk1
+        obtain ⟨s', hrun5, hb5, hv5⟩ := erase_up (H := cfg.height) Pc G.length G
           s4 (max k1 1) rfl (by rw [hb4.rows]) (by rw [hb4.row, List.length_append])
-          hb4.col (by omega) (by simp at hF hk1 ⊢; omega)
-        refine ⟨s', (l :: rest).length + max k1 1, ?_, by simpa using hb5, by simp at hF hk1 ⊢; omega,
-          by rw [hv5]; exact hvis4, hfinS, hfin.1, hfin.2⟩
-        have : r.out ++ [TermOp.lf, TermOp.showCursor] ++ restoreCursor (some (w, (l :: rest).length)) =
-            (r.out ++ [.lf, .showCursor] ++ [.cr]) ++ eraseOps (l :: rest).length := by
-          simp [restoreCursor, eraseUp_eq]
+          hb4.col (by omega) (by omega)
+        refine ⟨s', G.length + max k1 1, ?_, hb5, by omega,
+          by rw [hv5]; exact hvis4⟩
+        have : r.out ++ [TermOp.lf, TermOp.showCursor] ++ restoreCursor cfg.blankFix (some (w, Fc.length)) =
+            (r.out ++ [.lf, .showCursor] ++ [.cr]) ++ eraseOps G.length := by
+          simp [restoreCursor, eraseUp_eq, hlen]
         rw [this]
+        rw [hPlen] at hrun5
         exact Run.append hrun4 hrun5
+      cases hF1 : Fc with
+      | nil =>
+        by_cases hfix : cfg.blankFix = true
+        · obtain ⟨s', m, hr', hb', hm', hv'⟩ := up [[]] (by rw [hF1]; rfl) (by rw [hF1]; simp [restoreCount, hfix])
+          refine ⟨s', m, by rw [hF1] at hr'; exact hr', ?_, hm', hv'⟩
+          simpa [hfix] using hb'
+        · have hfix' : cfg.blankFix = false := by simpa using hfix
+          refine ⟨s4, max k1 1, ?_, ?_, hm3, hvis4⟩
+          · simpa [restoreCursor, restoreCount, hfix', hF1, eraseUp] using hrun4
+          · rw [hF1] at hb4; simpa [region, hfix'] using hb4
+      | cons l rest =>
+        obtain ⟨s', m, hr', hb', hm', hv'⟩ := up (l :: rest) (by rw [hF1]; rfl)
+          (by rw [hF1]; simp [restoreCount])
+        refine ⟨s', m, by rw [hF1] at hr'; exact hr', by simpa using hb', hm', hv'⟩
   · have htr' : cfg.transient = false := by simpa using htr
-    simp only [htr', Bool.false_eq_true, if_false, List.append_nil, leftBy]
-    exact ⟨s3, max k1 1, hrun2, hb3, hm3, hvis3, hfinS, hfin.1, hfin.2⟩
+    simp only [htr', Bool.false_eq_true, if_false, List.append_nil]
+    exact ⟨s3, max k1 1, hrun2, hb3, hm3, hvis3⟩
 
 /-- An effective `stop` of the repaired code re-establishes the invariant: what the display left is
 finished output, nothing is on display, no shape is recorded — a later `start` begins afresh. -/
-theorem good_stop_good {cfg : Cfg} {st : St} {v : View} {s : Screen} (hH : 1 ≤ cfg.height)
-    (hreset : cfg.resetShape = true) (g : Good cfg st v s)
-    (hfit : st.started = true → cfg.transient = true → (stopFrame cfg st).length + 1 ≤ cfg.height) :
+theorem good_stop_good {cfg : Cfg} {st : St} {v : View} {s : Screen} (hc : cfg.plain = true) (hH : 1 ≤ cfg.height)
+    (hreset : cfg.resetShape = true) (g : Good cfg st v s) (hbo : st.bufOut = []) (hbe : st.bufErr = [])
+    (hfit : st.started = true → cfg.transient = true →
+      restoreCount cfg.blankFix (stopFrame cfg st).length + 1 ≤ cfg.height) :
     ∃ s', Run cfg.height v.printed.length s (doStop cfg noFault st).out s' ∧
       Good cfg (doStop cfg noFault st).st (viewStopM cfg st v) s' ∧
       (st.started = true → s'.visible = true) := by
   by_cases hst : st.started = true
-  · obtain ⟨s', m, hrun, hb, hm, hvis, hns, hnh, hshape⟩ := stop_landing hH g hst (hfit hst)
+  · obtain ⟨s', m, hrun, hb, hm, hvis, hns, hnh, hshape⟩ := stop_landing hc hH g hst hbo hbe (hfit hst)
     refine ⟨s', hrun, ⟨⟨m - 1, ?_, ?_⟩, ?_, ?_, ?_⟩, fun _ => hvis⟩
     · simp only [viewStopM, hst, if_true]; exact atBlank_shown_nil hb
     · simp only [viewStopM, hst, if_true, region]; have := hb.pos; simp; omega
@@ -288,5 +277,40 @@ theorem good_stop_good {cfg : Cfg} {st : St} {v : View} {s : Screen} (hH : 1 ≤
     refine ⟨s, Run.nil _ _ _, ?_, fun h => by rw [hst'] at h; cases h⟩
     simp only [viewStopM, hst', Bool.false_eq_true, if_false]
     exact g
+
+/-- The final stop of a single-session history: the screen shows the printed lines, then the last frame
+(nothing if transient), then only blank rows; the cursor never went above the first row under the printed
+lines and is visible.  (Rows are rows of cells: `cells cfg.cw` of every line.) -/
+theorem good_stop {cfg : Cfg} {st : St} {v : View} {s : Screen} (hc : cfg.plain = true) (hH : 1 ≤ cfg.height) (g : Good cfg st v s)
+    (hbo : st.bufOut = []) (hbe : st.bufErr = [])
+    (hfit : st.started = true → cfg.transient = true →
+      restoreCount cfg.blankFix (stopFrame cfg st).length + 1 ≤ cfg.height) :
+    ∃ s', Run cfg.height v.printed.length s (doStop cfg noFault st).out s' ∧
+      (∃ k, s'.rows = ((viewStop cfg st v).printed ++ (viewStop cfg st v).frame).map (cells cfg.cw) ++ List.replicate k []) ∧
+      (st.started = true → s'.visible = true) := by
+  have hcnil : cells cfg.cw [] = [] := rfl
+  by_cases hst : st.started = true
+  · obtain ⟨s', m, hrun, hb, _, hvis, _⟩ := stop_landing hc hH g hst hbo hbe (hfit hst)
+    refine ⟨s', hrun, ?_, fun _ => hvis⟩
+    simp only [viewStop, hst, if_true]
+    rw [hb.rows]
+    by_cases htr : cfg.transient = true
+    · simp only [leftBy, htr, if_true]
+      split
+      · exact ⟨m + 1, by simp [List.replicate_succ, hcnil]⟩
+      · exact ⟨m, by simp⟩
+    · have htr' : cfg.transient = false := by simpa using htr
+      simp only [leftBy, htr', Bool.false_eq_true, if_false]
+      cases stopFrame cfg st with
+      | nil => exact ⟨m + 1, by simp [region, List.replicate_succ, hcnil]⟩
+      | cons l rest => exact ⟨m, by simp [region]⟩
+  · have hst' : st.started = false := by simpa using hst
+    have e : doStop cfg noFault st = { st := st } := by simp [doStop, hst']
+    rw [e]
+    obtain ⟨k, hs, _⟩ := g.shown
+    refine ⟨s, Run.nil _ _ _, ?_, fun h => by rw [hst'] at h; cases h⟩
+    simp only [viewStop, hst', Bool.false_eq_true, if_false]
+    obtain ⟨k', hk'⟩ := shown_rows hs
+    exact ⟨k', by rw [hk', List.map_append]⟩
 
 end RichModel.Live
